@@ -393,6 +393,27 @@ def checkpoint_replaces(ctx, rule='CKP'):
                    'over and keeps only the checkpoint; the checkpoint absorbs them into a one-shot iterator, so that building '
                    'the chain again (a second run of the same Flow object) does not add them a second time')
     ck = repo.cls('dataflows.processors.checkpoint:checkpoint')
+    # distinct names are distinct checkpoints: the directory is <checkpoint_path>/<checkpoint_name> with the name as it was given - a
+    # name that is cleaned, folded, cut or hashed on the way lets two pipelines (or two checkpoints of one chain) resume from each
+    # other's file
+    ini = ck.methods.get('__init__')
+    if ini is None:
+        raise AnalysisError('checkpoint.__init__ not found')
+    inn = ctx.N(ini)
+    from sa.pathvals import PathValues as _PVc
+    from sa.paths import Enumerator as _Enc
+    okn, nset = True, 0
+    for p_ in _Enc(where=ini.qualname).paths(inn.node.body):
+        pv_ = _PVc(p_)
+        v_ = pv_.env.get('self.checkpoint_path')
+        if v_ is None:
+            continue
+        nset += 1
+        b_ = _me('os.path.join(__D, __N)', v_)
+        okn = okn and b_ is not None and len(ini.params) > 2 and u(b_['__N']) == ini.params[1] and u(b_['__D']) == ini.params[2]
+    run.check(okn and nset >= 1, rule, ini.where, ini.qualname, 'self.checkpoint_path = os.path.join(checkpoint_path, checkpoint_name)',
+              'the directory of a checkpoint is not <checkpoint_path>/<checkpoint_name> with the name as given: two different names can '
+              'share one directory, and a pipeline then resumes from the checkpoint of another')
     pc, cases = checkpoint_chain_cases(ctx)
     yes = [v for pol, a, v, _ in cases if pol is True]
     no = [v for pol, a, v, _ in cases if pol is False]
@@ -500,6 +521,27 @@ def descriptor_never_skipped(ctx, rule='R19d'):
             pv = PathValues(p)
             excl = any(isinstance(k, ast.Constant) and k.value == dname for t, pol in list(p.guards()) + list(pv.guards)
                        for k in ast.walk(t))
+            # ... and open only to a file whose path is its content: with the hash of the file in its path an existing file IS this
+            # file; under any other condition (same size, same head and tail, same mtime ...) the file on disk may differ from the one
+            # whose size and hash were just recorded
+            atoms_ = []
+
+            def _split(t_, pol_):
+                if isinstance(t_, ast.UnaryOp) and isinstance(t_.op, ast.Not):
+                    _split(t_.operand, not pol_)
+                elif isinstance(t_, ast.BoolOp) and ((isinstance(t_.op, ast.And) and pol_) or (isinstance(t_.op, ast.Or) and not pol_)):
+                    for v_ in t_.values:
+                        _split(v_, pol_)
+                else:
+                    atoms_.append((u(t_), pol_))
+            for t_, pol_ in list(p.guards()) + list(pv.guards):
+                _split(t_, pol_)
+            addressed = any(tx.endswith('add_filehash_to_path') and pol_ for tx, pol_ in atoms_)
+            run.check(addressed, rule, w.where, w.qualname, 'skip path only for content-addressed files: %s'
+                      % ' & '.join(('' if pol else 'not ') + u(t) for t, pol in p.guards()),
+                      'write_file_to_output can leave an existing data file in place although its path does not carry the hash of its '
+                      'content: the file on disk is then not necessarily the file whose bytes, hash and row count this run recorded',
+                      path=p.describe())
             run.check(excl, rule, w.where, w.qualname, 'skip path excludes %s: %s' % (dname, ' & '.join(('' if pol else 'not ') + u(t)
                                                                                                   for t, pol in p.guards())),
                       'write_file_to_output can return without writing the file and nothing on that path tells %s apart from a data '
